@@ -91,6 +91,7 @@ def main():
         d = r['dir']
         out['files'] = {n: os.path.exists(os.path.join(d, 'out', n))
                         for n in ('res.json', 'res.csv', 'res.h5', 'log.txt')}
+        out['out_listing'] = sorted(os.listdir(os.path.join(d, 'out'))) if os.path.isdir(os.path.join(d, 'out')) else []
         try:
             out['log_file'] = open(os.path.join(d, 'out', 'log.txt')).read()
         except OSError:
